@@ -168,14 +168,14 @@ func (i Int16) BitwiseXor(other Value) (Int16, Value) {
 
 func (i Int16) LeftBitshiftInt16(other Int16) Int16 {
 	if other < 0 {
-		return i >> -other
+		return i >> uint16(-other)
 	}
 	return i << other
 }
 
 func (i Int16) RightBitshiftInt16(other Int16) Int16 {
 	if other < 0 {
-		return i << -other
+		return i << uint16(-other)
 	}
 	return i >> other
 }
@@ -194,8 +194,7 @@ func (i Int16) ExponentiateInt16(other Int16) Int16 {
 		return 1
 	}
 	result := i
-	var j Int16
-	for j = 2; j <= other; j++ {
+	for j := other; j > 1; j-- {
 		result *= i
 	}
 	return result
